@@ -179,12 +179,8 @@ def check(ck):
     reads = [(n, a) for (n, a, k, _t) in cl.accesses(fn_) if k == "r" and a == "__callback"]
     consumes = [n for (n, a, k, _t) in cl.accesses(fn_) if k == "w" and a == "__callback"]
     okk = bool(reads) and bool(consumes) and all(n.withs == consumes[0].withs and n.withs for (n, _a) in reads)
-    same_with = False
-    for w in ast.walk(fn_.node):
-        if isinstance(w, ast.With):
-            inner = [x for st_ in w.body for x in ast.walk(st_)]
-            if any(x is reads[0][0].ast for x in inner) and any(x is consumes[0].ast for x in inner) if reads and consumes else False:
-                same_with = True
+    same_with = bool(reads) and bool(consumes) and all(n.withs == consumes[0].withs and n.withs and n.tries[-1:] == consumes[0].tries[-1:]
+                                                       for (n, _a) in reads) and all(c_.withs == consumes[0].withs for c_ in consumes)
     ck.require(okk and same_with, "C16.5", "%s: registration consumed where it is read" % q.fn(fn_), "read and reset in one critical section",
                "the notifier does not consume the registration in the critical section in which it reads it: two notifiers (execute's and "
                "set_callback's) can both invoke the same registration", q.loc(fn_, fn_.node))
